@@ -838,7 +838,9 @@ func WithContext(context Context) ParseOption {
 }
 
 func (p *parser) Parse(reader text.Reader, opts ...ParseOption) ast.Node {
+	simPoint("parser.init.enter", &p.initSync)
 	p.initSync.Do(func() {
+		simPoint("parser.init.begin", &p.initSync)
 		p.config.BlockParsers.Sort()
 		for _, v := range p.config.BlockParsers {
 			p.addBlockParser(v, p.config.Options)
@@ -862,8 +864,10 @@ func (p *parser) Parse(reader text.Reader, opts ...ParseOption) ast.Node {
 			p.addASTTransformer(v, p.config.Options)
 		}
 		p.escapedSpace = p.config.EscapedSpace
+		simPoint("parser.init.end", &p.initSync)
 		p.config = nil
 	})
+	simPoint("parser.init.done", &p.initSync)
 	c := &ParseConfig{}
 	for _, opt := range opts {
 		opt(c)
